@@ -20,6 +20,7 @@ var c03Files = []string{
 func runC03(p *Program, r *Report) {
 	r.Rule("R03.1", "E1", 20, "never brings the handler down: in the envelope decoders (AcraBlock, AcraStruct, serialized container, hash prefix) every slice bound, index and allocation size that derives from a header field, a subtraction or a constant offset into the received value is proven in range from the dominating conditions (same prover and confirmed-table as R14.1)")
 	boundsRuleK(p, r, "R03.1", c03Files, r141Confirmed, true)
+	ruleContainerLengthWitness(p, r, "R03.1") // the confirmed allocation in DeserializeEncryptedData rests on this comparison
 	r.Rule("R03.2", "E3", 8, "fail-closed verification: (a) AcraBlock.Decrypt decrypts the payload only with a key obtained from the key-block decryption, which runs only on the key-id match edge, both under the caller's context, and every failure returns an error; (b) every search-hash comparison (IsEqual) answers 'not equal' with a non-nil error and no nil-error return is reachable from that edge")
 	ruleR032(p, r)
 	r.Rule("R03.3", "E3", 3, "transparent path hands damaged values back unchanged: DecryptHandler.OnCryptoEnvelope returns the very container it was given (and no error) when decryption fails; EnvelopeDetector.OnColumn re-emits the input byte at the cursor on every edge where no callback produced plaintext; a non-decryption error aborts with the original buffer")
@@ -513,4 +514,8 @@ func ruleVerifiedSuccess(p *Program, r *Report, rule string) {
 
 func init() {
 	mut("C03", "hmac processor trusts the verdict of the previous cell", "hmac/dataProcessor.go", "	if p.hashData != nil && !p.matchedHash.IsEqual(data, accessContext.GetClientID(), p.hmacStore) {", "	if p.hashData != nil && len(p.hashData) == len(p.rawData) {\n		return data, nil\n	}\n	if p.hashData != nil && !p.matchedHash.IsEqual(data, accessContext.GetClientID(), p.hmacStore) {", "R03.6", "Process")
+}
+
+func init() {
+	mut("C03", "container length compared before the header is subtracted (small lengths wrap)", "crypto/registry_handler.go", "	if internalLength < 0 || internalLength > uint64(len(encrypted)-SerializedContainerMinSize) {", "	if internalLength+SerializedContainerMinSize > uint64(len(encrypted)) && internalLength < 1<<62 {", "R03.1", "getSerializedContainerLength")
 }
